@@ -46,8 +46,12 @@ func main() {
 		busyChild(n, sd)
 		return
 	}
-	if len(os.Args) > 1 && os.Args[1] == "noisechild" {
-		noiseChild()
+	if len(os.Args) > 2 && os.Args[1] == "noisechild" {
+		noiseChild(os.Args[2])
+		return
+	}
+	if len(os.Args) > 1 && os.Args[1] == "reusechild" {
+		reuseChild()
 		return
 	}
 	if len(os.Args) > 1 && os.Args[1] == "farexpirychild" {
@@ -78,7 +82,9 @@ func main() {
 		case "busy":
 			cases = append(cases, runBusy(res, int(c.D), a.Seed)...)
 		case "noise":
-			runNoise(res)
+			cases = append(cases, runNoise(res)...)
+		case "reuse":
+			runReuse(res)
 		case "farexpiry":
 			if c := runFarExpiry(res); c != nil {
 				cases = append(cases, *c)
@@ -192,30 +198,8 @@ func main() {
 				}
 				cwg.Wait()
 			}
-			// then, side by side: a viewer asking for updates in bursts, and last-second joins
-			var cwg sync.WaitGroup
-			for _, f := range []func(*lib.Result) *Case{runUpdates, runLastSecond, runFarExpiry, runNoise} {
-				cwg.Add(1)
-				go func(f func(*lib.Result) *Case) {
-					defer cwg.Done()
-					one := lib.NewResult("C14", a.Seed, a.Tier)
-					c := f(one)
-					if c != nil {
-						idx := w.addCase(*c)
-						for i := range one.Violations {
-							one.Violations[i].Case = idx
-						}
-					}
-					cmu.Lock()
-					defer cmu.Unlock()
-					churnRes.Violations = append(churnRes.Violations, one.Violations...)
-					churnRes.Notes = append(churnRes.Notes, one.Notes...)
-					for k, v := range one.Distribution {
-						churnRes.CountN(k, v)
-					}
-				}(f)
-			}
-			cwg.Wait()
+			// then, side by side: a viewer asking for updates in bursts, last-second joins, a far expiry
+			sideBySide(w, a, churnRes, &cmu, single(runUpdates), single(runLastSecond), single(runFarExpiry))
 			close(churnDone)
 		}()
 		busyRes := lib.NewResult("C14", a.Seed, a.Tier)
@@ -226,12 +210,21 @@ func main() {
 			}
 			close(busyDone)
 		}()
+		// noise of every kind on the stats topic, and the published client connected again and again
+		noiseRes := lib.NewResult("C14", a.Seed, a.Tier)
+		noiseDone := make(chan struct{})
+		go func() {
+			var bmu sync.Mutex
+			sideBySide(w, a, noiseRes, &bmu, runNoise, single(runReuse))
+			close(noiseDone)
+		}()
 		runHistories(a, rng.Fork(), w)
 		<-childDone
 		<-churnDone
 		<-busyDone
+		<-noiseDone
 		res.Extra = map[string]interface{}{}
-		for _, cr := range []*lib.Result{childRes, churnRes, busyRes} {
+		for _, cr := range []*lib.Result{childRes, churnRes, busyRes, noiseRes} {
 			res.Violations = append(res.Violations, cr.Violations...)
 			res.Notes = append(res.Notes, cr.Notes...)
 			for k, v := range cr.Extra {
@@ -265,6 +258,8 @@ func main() {
 			coq[i] = runTrafficCase(c)
 		case "rest":
 			coq[i] = runRestCase(c)
+		case "quiet":
+			coq[i] = lib.App("CQuiet", cZ(1000), cZ(c.D))
 		default:
 			fmt.Fprintln(os.Stderr, "unknown case kind", c.Kind)
 			os.Exit(2)
@@ -284,6 +279,48 @@ func main() {
 		fmt.Fprintln(os.Stderr, err)
 		os.Exit(2)
 	}
+}
+
+func single(f func(*lib.Result) *Case) func(*lib.Result) []Case {
+	return func(r *lib.Result) []Case {
+		if c := f(r); c != nil {
+			return []Case{*c}
+		}
+		return nil
+	}
+}
+
+// sideBySide runs child scenarios concurrently; their cases join the run's cases, their violations
+// point at their first case.
+func sideBySide(w *world, a lib.Args, into *lib.Result, mu *sync.Mutex, fs ...func(*lib.Result) []Case) {
+	var wg sync.WaitGroup
+	for _, f := range fs {
+		wg.Add(1)
+		go func(f func(*lib.Result) []Case) {
+			defer wg.Done()
+			one := lib.NewResult("C14", a.Seed, a.Tier)
+			first := -1
+			for _, c := range f(one) {
+				idx := w.addCase(c)
+				if first < 0 {
+					first = idx
+				}
+			}
+			if first >= 0 {
+				for i := range one.Violations {
+					one.Violations[i].Case = first
+				}
+			}
+			mu.Lock()
+			defer mu.Unlock()
+			into.Violations = append(into.Violations, one.Violations...)
+			into.Notes = append(into.Notes, one.Notes...)
+			for k, v := range one.Distribution {
+				into.CountN(k, v)
+			}
+		}(f)
+	}
+	wg.Wait()
 }
 
 func nonFinite(r Rep) bool {
